@@ -59,8 +59,15 @@ def make_original(rng, root, kind, cbin_original, ns=None):
         sites = np2.shank_assignment(rng, str(rng.choice(["random", "blocks"])), int(rng.integers(2, 4)))
         b, rec = np2.build(rng, root, kind="NP2.4", ns=ns, sites=sites, content="random", gain=np2.GAIN_PAIRS[int(rng.integers(0, 4))], claim_ns=claim)
     elif kind == "NP1":
-        rec = G.make(rng, kind="3B2", ns=ns, content="random", claim_ns=claim)
+        # every generation that is not an NP2 probe (NP1 3A / 3B1 / 3B2, Neuropixels Ultra), as acquired: usually with its hardware LF band next to it
+        k1 = str(rng.choice(["3B2", "3A", "3B1", "NPultra", "NPultra"]))
+        rec = G.make(rng, kind=k1, ns=ns, content="random", claim_ns=claim)
         b = G.write(rec, Path(root) / "probe00", name=np2.NAME)
+        rec.kind1 = k1
+        if rng.random() < 0.7:
+            rec_lf = G.make(rng, kind=k1, stream="lf", ns=max(50, ns // 12), content="random")
+            G.write(rec_lf, Path(root) / "probe00", name=np2.NAME.replace(".ap", ".lf"))
+            rec.kind1 += "+lf"
     else:
         b, rec = np2.build(rng, root, kind=kind, ns=ns, content="random", gain=np2.GAIN_PAIRS[int(rng.integers(0, 4))], claim_ns=claim)
     rec.claim = claim
@@ -454,7 +461,7 @@ def run_case(case):
             elif si > 0 and case["change_opts"]:
                 opts = opts_of(int(rng.integers(0, 8)))
             overwrite = what == "overwrite"
-            label = (f"{kind} {'cbin' if case['cbin'] else 'bin'} history={case['steps']} step {si}:{what} opts={ {k: int(v) for k, v in opts.items()} }"
+            label = (f"{kind}{'(' + rec.kind1 + ')' if hasattr(rec, 'kind1') else ''} {'cbin' if case['cbin'] else 'bin'} history={case['steps']} step {si}:{what} opts={ {k: int(v) for k, v in opts.items()} }"
                      + (f" (file holds {rec.ns} samples, metadata announces {rec.claim})" if rec.claim else ""))
             if rec.claim and si == 0:
                 res.count("originals_with_inconsistent_metadata")
